@@ -554,4 +554,201 @@ theorem compat_passes (schema : Schema) (m m' : Obj) (h : compat schema m = some
         exact pres rest m1 m' h h1
       · exact ih m1 h hmem'
 
+/-! ### the executed part of a query
+
+`indexManager.Search` (shard/index/search.go) looks at a query node through its property name only:
+`_and` runs the `_and` list, `_or` the `_or` list, `_id` reads the string / stringArray options, a
+property with an index runs the options of THE INDEX'S TYPE (and, for vector / text options, their
+filter first).  Everything else a node carries — the other list, option blocks of other types, lists
+on a leaf — is dormant: `Query.Validate` still looks at it (every block and both lists must be
+well-formed), `ValidateSchema` and the execution must not. -/
+
+mutual
+def Query.live (schema : Schema) : Query → Query
+  | .mk property flat vamana text string integer float stringArray ff vf tf and or =>
+    if property = pAnd then .mk property none none none none none none none none none none (liveL schema and) []
+    else if property = pOr then .mk property none none none none none none none none none none [] (liveL schema or)
+    else if property = pId then .mk property none none none string none none stringArray none none none [] []
+    else match lookup schema property with
+      | none => emptyQuery property
+      | some value =>
+        if value.type = tVectorFlat then .mk property flat none none none none none none (liveO schema ff) none none [] []
+        else if value.type = tVectorVamana then .mk property none vamana none none none none none none (liveO schema vf) none [] []
+        else if value.type = tText then .mk property none none text none none none none none none (liveO schema tf) [] []
+        else if value.type = tString then .mk property none none none string none none none none none none [] []
+        else if value.type = tStringArray then .mk property none none none none none none stringArray none none none [] []
+        else if value.type = tInteger then .mk property none none none none integer none none none none none [] []
+        else if value.type = tFloat then .mk property none none none none none float none none none none [] []
+        else emptyQuery property
+def liveL (schema : Schema) : List Query → List Query
+  | [] => []
+  | q :: qs => q.live schema :: liveL schema qs
+def liveO (schema : Schema) : Option Query → Option Query
+  | none => none
+  | some q => some (q.live schema)
+end
+
+mutual
+theorem live_validSchema (schema : Schema) : (q : Query) → (q.live schema).validSchema schema = q.validSchema schema
+  | .mk property flat vamana text s i f sa ff vf tf and or => by
+    unfold Query.live
+    by_cases h1 : property = pAnd
+    · rw [if_pos h1]; unfold Query.validSchema; rw [if_pos h1, if_pos h1]; exact live_validSchemaL schema and
+    · rw [if_neg h1]
+      by_cases h2 : property = pOr
+      · rw [if_pos h2]; unfold Query.validSchema; rw [if_neg h1, if_pos h2, if_neg h1, if_pos h2]; exact live_validSchemaL schema or
+      · rw [if_neg h2]
+        by_cases h3 : property = pId
+        · rw [if_pos h3]; unfold Query.validSchema; rw [if_neg h1, if_neg h2, if_pos h3, if_neg h1, if_neg h2, if_pos h3]
+        · rw [if_neg h3]
+          cases hl : lookup schema property with
+          | none =>
+            simp only []
+            unfold emptyQuery Query.validSchema
+            rw [if_neg h1, if_neg h2, if_neg h3, if_neg h1, if_neg h2, if_neg h3]
+            simp only [hl]
+          | some value =>
+            simp only []
+            by_cases t1 : value.type = tVectorFlat
+            · rw [if_pos t1]; unfold Query.validSchema
+              rw [if_neg h1, if_neg h2, if_neg h3, if_neg h1, if_neg h2, if_neg h3]
+              simp only [hl, if_pos t1]
+              cases flat with
+              | none => rfl
+              | some o =>
+                cases value.flat with
+                | none => rfl
+                | some p =>
+                  simp only []
+                  split
+                  · rfl
+                  · exact live_validSchemaO schema ff
+            · rw [if_neg t1]
+              by_cases t2 : value.type = tVectorVamana
+              · rw [if_pos t2]; unfold Query.validSchema
+                rw [if_neg h1, if_neg h2, if_neg h3, if_neg h1, if_neg h2, if_neg h3]
+                simp only [hl, if_neg t1, if_pos t2]
+                cases vamana with
+                | none => rfl
+                | some o =>
+                  cases value.vamana with
+                  | none => rfl
+                  | some p =>
+                    simp only []
+                    split
+                    · rfl
+                    · exact live_validSchemaO schema vf
+              · rw [if_neg t2]
+                by_cases t3 : value.type = tText
+                · rw [if_pos t3]; unfold Query.validSchema
+                  rw [if_neg h1, if_neg h2, if_neg h3, if_neg h1, if_neg h2, if_neg h3]
+                  simp only [hl, if_neg t1, if_neg t2, if_pos t3]
+                  cases text with
+                  | none => rfl
+                  | some o => exact live_validSchemaO schema tf
+                · rw [if_neg t3]
+                  by_cases t4 : value.type = tString
+                  · rw [if_pos t4]; unfold Query.validSchema
+                    rw [if_neg h1, if_neg h2, if_neg h3, if_neg h1, if_neg h2, if_neg h3]
+                    simp only [hl, if_neg t1, if_neg t2, if_neg t3, if_pos t4]
+                  · rw [if_neg t4]
+                    by_cases t5 : value.type = tStringArray
+                    · rw [if_pos t5]; unfold Query.validSchema
+                      rw [if_neg h1, if_neg h2, if_neg h3, if_neg h1, if_neg h2, if_neg h3]
+                      simp only [hl, if_neg t1, if_neg t2, if_neg t3, if_neg t4, if_pos t5]
+                    · rw [if_neg t5]
+                      by_cases t6 : value.type = tInteger
+                      · rw [if_pos t6]; unfold Query.validSchema
+                        rw [if_neg h1, if_neg h2, if_neg h3, if_neg h1, if_neg h2, if_neg h3]
+                        simp only [hl, if_neg t1, if_neg t2, if_neg t3, if_neg t4, if_neg t5, if_pos t6]
+                      · rw [if_neg t6]
+                        by_cases t7 : value.type = tFloat
+                        · rw [if_pos t7]; unfold Query.validSchema
+                          rw [if_neg h1, if_neg h2, if_neg h3, if_neg h1, if_neg h2, if_neg h3]
+                          simp only [hl, if_neg t1, if_neg t2, if_neg t3, if_neg t4, if_neg t5, if_neg t6, if_pos t7]
+                        · rw [if_neg t7]; unfold emptyQuery Query.validSchema
+                          rw [if_neg h1, if_neg h2, if_neg h3, if_neg h1, if_neg h2, if_neg h3]
+                          simp only [hl, if_neg t1, if_neg t2, if_neg t3, if_neg t4, if_neg t5, if_neg t6, if_neg t7]
+theorem live_validSchemaL (schema : Schema) : (l : List Query) → validSchemaL schema (liveL schema l) = validSchemaL schema l
+  | [] => by simp [liveL, validSchemaL]
+  | q :: qs => by simp only [liveL, validSchemaL]; rw [live_validSchema schema q, live_validSchemaL schema qs]
+theorem live_validSchemaO (schema : Schema) : (o : Option Query) → validSchemaO schema (liveO schema o) = validSchemaO schema o
+  | none => by simp [liveO, validSchemaO]
+  | some q => by simp only [liveO, validSchemaO]; exact live_validSchema schema q
+end
+
+mutual
+theorem live_reach (schema : Schema) : (q : Query) → (q.live schema).reach schema = q.reach schema
+  | .mk property flat vamana text s i f sa ff vf tf and or => by
+    unfold Query.live
+    by_cases h1 : property = pAnd
+    · rw [if_pos h1]; unfold Query.reach; rw [if_pos h1, if_pos h1]; exact live_reachL schema and
+    · rw [if_neg h1]
+      by_cases h2 : property = pOr
+      · rw [if_pos h2]; unfold Query.reach; rw [if_neg h1, if_pos h2, if_neg h1, if_pos h2]; exact live_reachL schema or
+      · rw [if_neg h2]
+        by_cases h3 : property = pId
+        · rw [if_pos h3]; unfold Query.reach; rw [if_neg h1, if_neg h2, if_pos h3, if_neg h1, if_neg h2, if_pos h3]
+        · rw [if_neg h3]
+          cases hl : lookup schema property with
+          | none =>
+            simp only []
+            unfold emptyQuery Query.reach
+            rw [if_neg h1, if_neg h2, if_neg h3, if_neg h1, if_neg h2, if_neg h3]
+            simp only [hl]
+          | some value =>
+            simp only []
+            by_cases t1 : value.type = tVectorFlat
+            · rw [if_pos t1]; unfold Query.reach
+              rw [if_neg h1, if_neg h2, if_neg h3, if_neg h1, if_neg h2, if_neg h3]
+              simp only [hl, if_pos t1]
+              cases flat with
+              | none => rfl
+              | some o =>
+                cases value.flat with
+                | none => rfl
+                | some p => simp only []; rw [live_reachO schema ff]
+            · rw [if_neg t1]
+              by_cases t2 : value.type = tVectorVamana
+              · rw [if_pos t2]; unfold Query.reach
+                rw [if_neg h1, if_neg h2, if_neg h3, if_neg h1, if_neg h2, if_neg h3]
+                simp only [hl, if_neg t1, if_pos t2]
+                cases vamana with
+                | none => rfl
+                | some o =>
+                  cases value.vamana with
+                  | none => rfl
+                  | some p => simp only []; rw [live_reachO schema vf]
+              · rw [if_neg t2]
+                by_cases t3 : value.type = tText
+                · rw [if_pos t3]; unfold Query.reach
+                  rw [if_neg h1, if_neg h2, if_neg h3, if_neg h1, if_neg h2, if_neg h3]
+                  simp only [hl, if_neg t1, if_neg t2, if_pos t3]
+                  cases text with
+                  | none => rfl
+                  | some o => exact live_reachO schema tf
+                · rw [if_neg t3]
+                  have hnone : ∀ q : Query, q.property = property → q.flat = none → q.vamana = none → q.text = none → q.reach schema = [] := by
+                    intro q hp _ _ _
+                    cases q with
+                    | mk p2 fl va te _ _ _ _ _ _ _ _ _ =>
+                      simp only [Query.property] at hp
+                      subst hp
+                      unfold Query.reach
+                      rw [if_neg h1, if_neg h2, if_neg h3]
+                      simp only [hl, if_neg t1, if_neg t2, if_neg t3]
+                  have hrhs : (Query.mk property flat vamana text s i f sa ff vf tf and or).reach schema = [] := by
+                    unfold Query.reach
+                    rw [if_neg h1, if_neg h2, if_neg h3]
+                    simp only [hl, if_neg t1, if_neg t2, if_neg t3]
+                  rw [hrhs]
+                  (repeat' split) <;> exact hnone _ rfl rfl rfl rfl
+theorem live_reachL (schema : Schema) : (l : List Query) → reachL schema (liveL schema l) = reachL schema l
+  | [] => by simp [liveL, reachL]
+  | q :: qs => by simp only [liveL, reachL]; rw [live_reach schema q, live_reachL schema qs]
+theorem live_reachO (schema : Schema) : (o : Option Query) → reachO schema (liveO schema o) = reachO schema o
+  | none => by simp [liveO, reachO]
+  | some q => by simp only [liveO, reachO]; exact live_reach schema q
+end
+
 end Sema.C18
